@@ -71,6 +71,29 @@ $GEN{$NG(a int)}{int}{
 }
 `
 
+// shapes of recorded known findings: only generated with VERIF_INCLUDE_KNOWN=1 (their replays under findings/ are
+// re-executed by the owning check on every run)
+var knownFindingShapes = map[string]shape{
+	// known finding local-shadows-element-type (C11): the generated code names the element type inside the user's scopes
+	"local-shadows-element-type": {name: "local-named-like-the-element-type", decls: `
+type $Ntoken struct{ kind, n int }
+
+$GEN{$NLex(a int)}{$Ntoken}{
+	for i := 0; i < 2; i++ {
+		$Ntoken := $Ntoken{a, i}
+		$YIELD{$Ntoken}
+	}
+	$RET
+}
+
+func $NC(a int) (res int) {
+	for t := range $RANGE{$NLex(a)} {
+		res = res*10 + t.kind + t.n
+	}
+	return
+}`, entries: []*Entry{callEntry("$NC", 1, nil)}},
+}
+
 // ---- C06: consumer-side shapes and iterator type positions ---------------------------------------
 
 var consumerShapes = []shape{
